@@ -75,6 +75,14 @@ def copy_collections(prog):
     return out
 
 
+def _spk(n):
+    parts = (n.get("sp") or "").split(":")
+    try:
+        return (int(parts[1]), int(parts[2]))
+    except (IndexError, ValueError):
+        return (0, 0)
+
+
 def _clone_binding(pat, iterable, kind="map-value"):
     """lid of the loop variable that holds the *clone* (the value of ref_rewrites, or an element of the list of copies)"""
     names, _ = _chain(iterable)
@@ -98,14 +106,45 @@ def rule_rule(c, prog):
     loops = _for_loops(fn.body)
     colls = copy_collections(prog)
     outer = [(n, f) for n, f in loops if core.place_root(f[1])[0] == "self" and set(core.place_root(f[1])[1]) & set(colls)]
+    # a pass may also be one iterator chain over the copies that is collected into a set:
+    #   let existing: Set<Ref> = self.<copies>.iter().flat_map(|copy| dest.get_by_ref(*copy)…properties.values()).filter_map(|v| …).collect();
+    # It is presented to the clauses below as a loop: pattern = the parameter of the first closure (the copy), iterable
+    # = the chain up to that closure, body = the rest of the chain.
+    chain_existing = {}
+    for st in core.walk_lets(fn.body):
+        init = core.strip(st.get("init") or {})
+        if st["pat"].get("k") != "Binding" or init.get("k") != "MethodCall" or init["m"] != "collect":
+            continue
+        if not re.search(r"Set<", (st["pat"].get("ty") or "") + (init.get("ty") or "")):
+            continue
+        links = []
+        x = init
+        while x.get("k") == "MethodCall":
+            links.append(x)
+            x = core.strip(x["recv"])
+        root, path = core.place_root(x)
+        if root != "self" or not (set(path) & set(colls)):
+            continue
+        links.reverse()          # innermost first
+        first_clo = next((i for i, l in enumerate(links) if l["args"] and core.strip(l["args"][0]).get("k") == "Closure"), None)
+        if first_clo is None:
+            continue
+        clo = core.strip(links[first_clo]["args"][0])
+        prm = clo["params"][0]
+        pseudo = (prm.get("pat") or prm, links[first_clo]["recv"], {"k": "Block", "b": {"stmts": [{"k": "Expr", "e": init}]}, "sp": init.get("sp")}, None)
+        outer.append((init, pseudo))
+        chain_existing[id(pseudo)] = (st["pat"]["lid"], links)
+    outer.sort(key=lambda nf: _spk(nf[0]))
     if len(outer) != 2:
         c.violation(R, "passes", f"rewrite_refs has {len(outer)} pass(es) over the copies recorded by clone_ref_as_builder ({sorted(colls)}); the rule `kept iff the destination contained it before rewriting` needs the set of pre-existing destination refs to be complete before the first value is rewritten, i.e. a collecting pass followed by a rewriting pass", fn.sp, instance="loops-over-ref_rewrites")
         return
     c.ok(R, "loops-over-ref_rewrites", 2)
     # role: the `existing` set = the set local that receives insert() / extend() in loop 1
     l1, l2 = outer[0][1], outer[1][1]
-    existing = None
-    for n in core.walk(l1[2]):
+    if id(l2) in chain_existing:
+        raise core.AnchorMissing("rewrite_refs: the rewriting pass must be a loop over the copies")
+    existing = chain_existing[id(l1)][0] if id(l1) in chain_existing else None
+    for n in ([] if existing is not None else core.walk(l1[2])):
         if n.get("k") == "MethodCall" and n["m"] in ("insert", "extend") and "HashSet" in (core.callee_generic(n) or "") + n["recv"].get("ty", "") + n["recv"].get("aty", ""):
             r = core.strip(n["recv"])
             if r.get("res") == "local":
@@ -136,6 +175,16 @@ def rule_rule(c, prog):
         c.ok(R, "loop1:read-only")
     dest_types = [prm for prm in fn.params if "WeakDom" in (prm.get("ty") or "")]
     dest_name = dest_types[0].get("name") if dest_types else "dest"
+    # other names of the destination: `let view: &WeakDom = dest;`
+    dest_names = {dest_name}
+    for st in core.walk_lets(fn.body):
+        init = st.get("init")
+        if init is not None and st["pat"].get("k") == "Binding" and "WeakDom" in ((st["pat"].get("ty") or "") + (init.get("ty") or "")):
+            i0 = core.strip(init)
+            while i0.get("k") in ("AddrOf", "Unary", "Cast", "Type"):
+                i0 = core.strip(i0["e"])
+            if i0.get("k") == "Path" and i0.get("name") in dest_names:
+                dest_names.add(st["pat"].get("name"))
 
     def role(n):
         """name a condition by role, independent of local names"""
@@ -157,7 +206,7 @@ def rule_rule(c, prog):
             recv = core.strip(n0["recv"])
             if n0["m"] == "contains" and recv.get("lid") == existing:
                 return "B"
-            if n0["m"] == "contains_key" and core.place_root(n0["recv"]) == (dest_name, ["instances"]):
+            if n0["m"] == "contains_key" and core.place_root(n0["recv"])[0] in dest_names and core.place_root(n0["recv"])[1] == ["instances"]:
                 return "D"
             if n0["m"] == "contains_key" and core.place_root(n0["recv"])[1][-1:] == ["ref_rewrites"]:
                 return "A"
@@ -196,6 +245,11 @@ def rule_rule(c, prog):
     def inner_body(lp):
         """(kind, body) of the per-property-value code of a pass: the body of the inner `for` over
         properties.values(_mut)(), or the closure of `existing.extend(<properties.values()>.filter_map(closure))`"""
+        if id(lp) in chain_existing:
+            for l in chain_existing[id(lp)][1]:
+                if l["m"] == "filter_map" and l["args"] and core.strip(l["args"][0]).get("k") == "Closure":
+                    return "closure", core.strip(l["args"][0])["body"]
+            raise core.AnchorMissing("rewrite_refs: the collecting chain has no filter_map over the property values")
         inner = [f for _, f in _for_loops(lp[2])]
         if len(inner) == 1:
             root, path = core.place_root(inner[0][1])
@@ -235,8 +289,9 @@ def rule_rule(c, prog):
                 cs.add((a, val))
             if any((a, not val) in cs for a, val in cs):
                 continue
-            out.setdefault(frozenset(cs), set()).update(v)
-        return {k: sorted(v) for k, v in out.items()}
+            # the tables are those of a loop body: leaving it with `continue` is reaching its end
+            out.setdefault(frozenset(cs), set()).update((ef, None if ex_ == "continue" else ex_) for ef, ex_ in v)
+        return {k: sorted(v, key=repr) for k, v in out.items()}
     got2 = norm(decision.table(paths_of(k2, b2)))
     got1 = norm(decision.table(paths_of(k1, b1)))
     want2 = {
@@ -268,7 +323,7 @@ def rule_rule(c, prog):
         used = None
         if lid is not None:
             for n in core.walk(lp[2]):
-                if n.get("k") == "MethodCall" and n["m"] in ("get_by_ref", "get_by_ref_mut", "get", "get_mut") and core.place_root(n["recv"])[0] == dest_name and n["args"]:
+                if n.get("k") == "MethodCall" and n["m"] in ("get_by_ref", "get_by_ref_mut", "get", "get_mut") and core.place_root(n["recv"])[0] in dest_names and n["args"]:
                     if any(x.get("k") == "Path" and x.get("lid") == lid for x in core.walk(n["args"][0])):
                         used = True
                     elif used is None:
@@ -364,11 +419,22 @@ def rule_copy(c, prog):
         root, path = core.place_root(recv)
         return "VecDeque" in ty and root == "self" and len([p for p in path if not p.startswith(".")]) == 1
 
+    struct_roles = {}
+
     def pair_ok(t, child_lids):
+        """the queued work item pairs the copy's fresh referent (parent role) with the child to clone: a tuple
+        (new_ref, child) or a struct literal with one field for each (their names are remembered so that the pop sites
+        can be checked to use them in the same roles)"""
         t = core.strip(t)
-        if not (t.get("k") == "Tup" and len(t["args"]) == 2 and is_new_ref(t["args"][0])):
-            return False
-        return any(x.get("k") == "Path" and x.get("lid") in child_lids for x in core.walk(t["args"][1]))
+        if t.get("k") == "Tup" and len(t["args"]) == 2 and is_new_ref(t["args"][0]):
+            return any(x.get("k") == "Path" and x.get("lid") in child_lids for x in core.walk(t["args"][1]))
+        if t.get("k") == "Struct" and len(t.get("fields") or []) == 2:
+            par = [f_["f"] for f_ in t["fields"] if is_new_ref(f_["e"])]
+            chi = [f_["f"] for f_ in t["fields"] if any(x.get("k") == "Path" and x.get("lid") in child_lids for x in core.walk(f_["e"]))]
+            if len(par) == 1 and len(chi) == 1 and par[0] != chi[0]:
+                struct_roles["parent"], struct_roles["child"] = par[0], chi[0]
+                return True
+        return False
     ok = False
     for _n, fl in _for_loops(fn.body):
         lid, path = core.place_root_lid(fl[1])
@@ -412,6 +478,22 @@ def rule_copy(c, prog):
             c.ok(R, inst)
         else:
             c.violation(R, f"{name}|rewrite", f"{name}: rewrite_refs is not called exactly once, after the clone queue is drained, on every normal path", f.sp, instance=inst)
+        # a work item that is a struct: the pop site uses its two fields in the roles the push site filled them in
+        if struct_roles:
+            bad_role = None
+            for n in core.walk_fn(f):
+                if n.get("k") == "MethodCall" and core.callee_generic(n) == DOM + "WeakDom::insert":
+                    pth = core.place_root(n["args"][0])[1]
+                    if pth and pth[-1] in struct_roles.values() and pth[-1] != struct_roles["parent"]:
+                        bad_role = ("parent", pth[-1], n)
+                if n.get("k") == "MethodCall" and n["m"] == "clone_ref_as_builder" and len(n["args"]) >= 2:
+                    pth = core.place_root(n["args"][-1])[1]
+                    if pth and pth[-1] in struct_roles.values() and pth[-1] != struct_roles["child"]:
+                        bad_role = ("child", pth[-1], n)
+            if bad_role:
+                c.violation(R, f"{name}|work-item-roles", f"{name} uses field `{bad_role[1]}` of the queued work item as the {bad_role[0]}, but clone_ref_as_builder stores the {bad_role[0]} in `{struct_roles[bad_role[0]]}`: copies would be inserted under the wrong parent", core.loc(bad_role[2]), instance=f"{name}:work-item-roles")
+            else:
+                c.ok(R, f"{name}:work-item-roles")
         # rewrite target
         for n in core.walk_fn(f):
             if n.get("k") == "MethodCall" and n["m"] == "rewrite_refs":
